@@ -72,7 +72,9 @@ Pass(t, timeout, stale, torn, conn1) ==
     /\ UNCHANGED <<everUp, upSince, quietSince>>
 
 (* a datagram arrives on l at time t *)
-Arrive(l, t, cls, len, conn1, rejoin) ==
+(* stray: the datagram was not an answer of the receiver (arbitrary traffic reaching the uplink socket): it
+   counts as interference for the rejoin bound, like a burst *)
+Arrive(l, t, cls, len, conn1, rejoin, stray) ==
     /\ act' = "Arrive"
     /\ heard' = [heard EXCEPT ![l] = IF len < 2 \/ cls \in {"reg2", "reg_ngp"} THEN @
                                      ELSE IF cls = "reg_err" THEN -1 ELSE t]
@@ -84,7 +86,8 @@ Arrive(l, t, cls, len, conn1, rejoin) ==
     /\ (len >= 2 /\ cls = "reg3" /\ ~conn[l]) => rejoin
     /\ conn' = conn1
     /\ tornSince' = [tornSince EXCEPT ![l] = IF len >= 2 /\ cls = "reg3" THEN FALSE ELSE @]
-    /\ UNCHANGED <<born, lastTry, upSince, quietSince>>
+    /\ quietSince' = IF stray THEN t ELSE quietSince
+    /\ UNCHANGED <<born, lastTry, upSince>>
 
 (* a send on l's socket fails during a flush: soft teardown (mark_for_recovery) *)
 SendFailure(R, t, conn1) ==
